@@ -118,9 +118,12 @@ func RunDriver(a DriverArgs) int {
 	}
 	defer os.RemoveAll(scratch)
 
-	exe := filepath.Join(BinDir(), "vcheck")
-	if info.Race {
-		exe = filepath.Join(BinDir(), "vcheck.race")
+	exe, err := os.Executable()
+	if err != nil {
+		exe = filepath.Join(BinDir(), "vcheck")
+	}
+	if info.Race && !strings.HasSuffix(exe, ".race") {
+		exe += ".race"
 	}
 	timeout := info.CaseTimeout
 	if timeout <= 0 {
